@@ -195,6 +195,7 @@ def main(argv=None):
     exhaustive = True
     canaries_ok = 0
     extra_notes = []
+    all_outcomes = set()
     for r in results:
         if "fatal" in r:
             harness_errors.append(f"{r['scenario']}: {r['fatal']}\n{r.get('tb','')}")
@@ -220,6 +221,7 @@ def main(argv=None):
                 harness_errors.append(f"{r['scenario']}: exception escaped the scenario: {p.get('exception_text')}\n{p.get('exception_tb','')}")
             for o in p["outcomes"]:
                 outcomes_seen.add(o)
+                all_outcomes.add(o)
             for ob in p["obligations"]:
                 if ob["name"].startswith("CANARY"):
                     if ob["status"] == "refuted":
@@ -342,6 +344,12 @@ def main(argv=None):
         },
         "assumptions": meta.get("assumptions", []),
     }
+    ev["coverage"]["outcomes_seen"] = sorted(all_outcomes)[:300]
+    if hasattr(mod, "static_report"):
+        try:
+            ev["coverage"]["static_report"] = mod.static_report(all_outcomes)
+        except Exception as e:  # informational only
+            ev["coverage"]["static_report"] = {"error": f"{type(e).__name__}: {e}"}
     if not a.no_evidence and not a.only:
         os.makedirs(os.path.join(VERIF_DIR, "evidence"), exist_ok=True)
         json.dump(ev, open(os.path.join(VERIF_DIR, "evidence", f"{prop}.json"), "w"), indent=1)
